@@ -868,9 +868,8 @@ func checkC09(s cleanScn) error {
 	for k := range staleEntries {
 		maxIDs[k.id]++
 	}
-	for k := range protectedEntries {
-		maxIDs[k.id]++ // exempt from the completeness demand, may be listed
-	}
+	// entries of skip-protected tests are NOT obsolete ("... is reported obsolete unless it belongs to a skip-protected test"):
+	// in these scenarios (no -run filter, skipped tests share their files with running tests) nothing else can excuse listing them
 	gotIDs := map[string]int{}
 	for _, id := range r.sum.Tests {
 		gotIDs[id]++
@@ -882,7 +881,7 @@ func checkC09(s cleanScn) error {
 	}
 	for id, n := range gotIDs {
 		if n > maxIDs[id] {
-			return fmt.Errorf("entry %q is reported as obsolete %d time(s) but only %d stale entries have that id (addressed entries must never be listed)", id, n, maxIDs[id])
+			return fmt.Errorf("entry %q is reported as obsolete %d time(s) but only %d stale entries have that id (addressed entries and entries of skip-protected tests must never be listed; skipped: %v)", id, n, maxIDs[id], m.skipped)
 		}
 	}
 	if len(r.sum.Files) > 0 {
@@ -930,9 +929,7 @@ func checkC09(s cleanScn) error {
 				if deletes && staleEntries[k] {
 					continue
 				}
-				if deletes && protectedEntries[k] && gotIDs[string(e.ID)] > 0 {
-					continue // exempt: protected entries that were (allowed to be) reported may be removed with the reported ones
-				}
+
 				want = append(want, e)
 			}
 			if err := sameMultiset(want, postEs); err != nil {
